@@ -1340,6 +1340,17 @@ func makeTaskForMesosResources(
 	offerIDsToDecline map[mesos.OfferID]struct{},
 ) (*Task, *mesos.TaskInfo) {
 
+	// The static ports of the task are taken first, so that no dynamic port can collide with them
+	if len(wants.StaticPorts) > 0 {
+		staticBuilder := resources.BuildRanges()
+		for _, rng := range wants.StaticPorts {
+			staticBuilder = staticBuilder.Span(rng.Begin, rng.End)
+		}
+		remainingResourcesInOffer.Subtract(resources.Build().
+			Name(resources.Name("ports")).
+			Ranges(staticBuilder.Ranges.Sort().Squash()).Resource)
+	}
+
 	bindMap := make(channel.BindMap)
 	for _, ch := range wants.InboundChannels {
 		if ch.Addressing == channel.IPC {
@@ -1507,6 +1518,9 @@ func makeTaskForMesosResources(
 	portRanges := portsBuilder.Ranges.Sort().Squash()
 	portsResources := resources.Build().Name(resources.Name("ports")).Ranges(portRanges)
 	resourcesRequest.Add1(portsResources.Resource)
+
+	// The CPU and memory of this task are no longer available to other tasks on the same offer (its ports are gone already)
+	remainingResourcesInOffer.Subtract(resourcesRequest...)
 
 	// Append executor resources to request
 	executorResources := mesos.Resources(state.executor.Resources)
